@@ -259,6 +259,13 @@ hwloc_synthetic_process_indexes(struct hwloc_synthetic_backend_data_s *data,
 	      && loops[i].level_depth > prevdepth)
 	    prevdepth = loops[i].level_depth;
 	}
+	if (data->level[mydepth].totalwidth > total) {
+	  /* cannot interleave by a level that is deeper than the indexed one */
+	  if (verbose)
+	    fprintf(stderr, "Invalid interleaving loop type below the indexed level in synthetic index '%s'\n", attr);
+	  free(loops);
+	  goto out_with_array;
+	}
 	step = total / data->level[mydepth].totalwidth; /* number of objects below us */
 	nb = data->level[mydepth].totalwidth / data->level[prevdepth].totalwidth; /* number of us within parent */
 
